@@ -49,6 +49,9 @@ AllKinds == {"fail", "err", "skip", "ki"}
 Behaviours ==
     {Ret} \cup {Beh("raise", k, 0) : k \in AllKinds}
           \cup {Beh("dfire", None, d) : d \in Delays}
+          \* an ALREADY FIRED Deferred whose callback chain is paused on an inner Deferred firing after d:
+          \* `called` is true, yet the stage is not over before the inner one fires
+          \cup {Beh("dpause", None, d) : d \in Delays}
           \cup {Beh("dfail", k, d) : k \in AllKinds, d \in Delays}
           \cup {Beh("never", None, Never)}
 ASSUME Faults \subseteq Behaviours \ {Ret}
@@ -142,7 +145,7 @@ Complete ==
     /\ pc = "wait" /\ waitUntil < EarliestOther
     /\ now' = waitUntil
     /\ LET u == cur
-           ok == beh[u].b \in {"ret", "dfire"} IN
+           ok == beh[u].b \in {"ret", "dfire", "dpause"} IN
        /\ raised' = IF ok THEN raised
                      ELSE Append(raised, IF beh[u].k = "ki" /\ u \in {"c1", "c2"} THEN "kic" ELSE beh[u].k)
        /\ failsSeen' = (failsSeen \/ ~ok)
@@ -222,7 +225,7 @@ Spec == Init /\ [][Next]_vars
 (* MEANING, from the scenario alone                                         *)
 
 \* the planned order of units if nothing stopped the reactor
-Plan == LET ok == beh["setUp"].b \in {"ret", "dfire"} IN
+Plan == LET ok == beh["setUp"].b \in {"ret", "dfire", "dpause"} IN
         <<"setUp">> \o (IF ok THEN <<"body", "tearDown">> ELSE <<>>) \o CleanupOrder(ncl)
 RECURSIVE StartAt(_)       \* virtual start time of the i-th planned unit
 StartAt(i) == IF i = 1 THEN 0 ELSE StartAt(i - 1) + beh[Plan[i - 1]].d
@@ -234,7 +237,7 @@ Started == {i \in DOMAIN Plan : \A j \in 1..(i - 1) : beh[Plan[j]].b # "never" /
 Finished == \A i \in DOMAIN Plan : beh[Plan[i]].b # "never" /\ EndAt(i) < Deadline
 CleanRun ==
     /\ Finished
-    /\ \A i \in DOMAIN Plan : beh[Plan[i]].b \in {"ret", "dfire"}
+    /\ \A i \in DOMAIN Plan : beh[Plan[i]].b \in {"ret", "dfire", "dpause"}
     \* "flushall" leaves nothing behind; every other side effect (incl. a failed expectation, C07) spoils the run
     /\ side.what \in {None, "flushall"} \/ side.unit \notin {Plan[i] : i \in DOMAIN Plan}
     /\ intr = NoIntr                       \* a pending stop request is itself a delayed call left behind
